@@ -348,7 +348,7 @@ class Interp:
 
     def arith(self, op, a, b, node):
         if isinstance(a, Other) or isinstance(b, Other):
-            if self.opts.get('strict_other', True) and (is_num(a) or is_num(b)):
+            if self.opts.get('strict_other', True) and (isinstance(a, Num) or isinstance(b, Num)):
                 self.incomplete(node, f"arithmetic with an uninterpreted value ({a!r} {type(op).__name__} {b!r})")
             return Other('arith')
         if isinstance(a, NoneV) or isinstance(b, NoneV):
